@@ -58,3 +58,723 @@ Qed.
 
 Lemma d_put_opt_some : forall name t, d_put_opt name t <> None.
 Proof. intros. apply d_put_loop_some. lia. Qed.
+
+(* ---- ReadUvarint with partial value agrees with the decoder on success ---- *)
+Lemma uvarint_read_dec_aux : forall fuel i w acc bs v r,
+  uvarint_dec_aux fuel i w acc bs = Some (v, r) -> uvarint_read_aux fuel i w acc bs = (v, true, r).
+Proof.
+  induction fuel as [|f IH]; intros i w acc bs v r H; cbn in *; [discriminate|].
+  destruct bs as [|b bs]; [discriminate|].
+  destruct (b <? 128).
+  - destruct (Nat.eqb i 9 && (1 <? b)); [discriminate|]. injection H as <- <-. reflexivity.
+  - apply IH. exact H.
+Qed.
+
+Lemma uvarint_read_enc : forall n rest, n < 2 ^ 64 -> uvarint_read (uvarint_enc n ++ rest) = (n, true, rest).
+Proof. intros. apply uvarint_read_dec_aux. apply uvarint_roundtrip. assumption. Qed.
+
+Lemma uvarint_enc_fuel_len : forall f n, (1 <= length (uvarint_enc_fuel f n))%nat.
+Proof. destruct f; intros; cbn; [lia|]. destruct (n <? 128); cbn; lia. Qed.
+Lemma uvarint_enc_len : forall n, (1 <= length (uvarint_enc n))%nat.
+Proof. intros. apply uvarint_enc_fuel_len. Qed.
+
+(* ---- induction on tries ---- *)
+Section TrieInd.
+  Variable P : trie -> Prop.
+  Hypothesis H : forall l ch, Forall P ch -> P (TrNode l ch).
+  Fixpoint trie_ind' (t : trie) : P t :=
+    match t with
+    | TrNode l ch => H l ch ((fix go (ch : list trie) : Forall P ch :=
+                                match ch with
+                                | [] => Forall_nil _
+                                | c :: ch' => Forall_cons _ (trie_ind' c) (go ch')
+                                end) ch)
+    end.
+End TrieInd.
+
+(* ---- keys as lists of (child index, consumed length); exact walks ---- *)
+Definition key_of (ps : list (N * N)) : bytes := flat_map (fun p => pair_enc (fst p) (snd p)) ps.
+Definition small_pair (p : N * N) : Prop := fst p < two63 /\ snd p < two63.
+
+(* from child [c], consume exactly E bytes of labels going down through first children; returns
+   the children of the node where the walk lands and the bytes read *)
+Fixpoint chainf (c : trie) (E : N) : option (list trie * bytes) :=
+  match c with
+  | TrNode l ch =>
+      if Nlen l <=? E then
+        if E - Nlen l =? 0 then Some (ch, l)
+        else match ch with
+             | c0 :: _ => match chainf c0 (E - Nlen l) with
+                          | Some (che, s) => Some (che, l ++ s)
+                          | None => None
+                          end
+             | [] => None
+             end
+      else None
+  end.
+
+Fixpoint walk (ch : list trie) (ps : list (N * N)) : option bytes :=
+  match ps with
+  | [] => Some []
+  | (v, E) :: ps' =>
+      match nth_error ch (N.to_nat v) with
+      | None => None
+      | Some c => match chainf c E with
+                  | None => None
+                  | Some (che, s) => match walk che ps' with
+                                     | Some n => Some (s ++ n)
+                                     | None => None
+                                     end
+                  end
+      end
+  end.
+
+(* key k is an exact key for name in trie t *)
+Definition valid_key (t : trie) (k name : bytes) : Prop :=
+  exists ps, k = key_of ps /\ Forall small_pair ps /\ walk (tr_ch t) ps = Some name.
+
+Lemma to_int64_small : forall x, x < two63 -> to_int64 x = Z.of_N x.
+Proof. intros x H. unfold to_int64. destruct (N.ltb_spec x two63); [reflexivity|lia]. Qed.
+
+Lemma wrap_sub_small : forall x y, y <= x -> x < two64 -> wrap_sub x y = x - y.
+Proof.
+  intros x y H1 H2. unfold wrap_sub, two64 in *.
+  rewrite (N.mod_small y) by lia.
+  replace (x + 18446744073709551616 - y) with ((x - y) + 1 * 18446744073709551616) by lia.
+  rewrite N.mod_add by lia. apply N.mod_small. lia.
+Qed.
+
+(* the inner loop of Get started at node [cur] with L + R still expected, L the length of the label
+   selected by the index: it consumes exactly R more bytes *)
+Lemma descend_exact : forall cur,
+  forall R L che s buf,
+    match (if R =? 0 then Some (tr_ch cur, []) else
+             match tr_ch cur with c0 :: _ => chainf c0 R | [] => None end) with
+    | Some r => r = (che, s) | None => False end ->
+    L + R < two63 ->
+    exists e, d_descend cur L (L + R) buf = Some (e, buf ++ s) /\ tr_ch e = che.
+Proof.
+  induction cur as [l ch IH] using trie_ind'. intros R L che s buf Hc Hb.
+  cbn [d_descend]. rewrite to_int64_small by exact Hb. cbn [tr_ch] in Hc.
+  destruct (N.eqb_spec R 0) as [->|Hnz].
+  - injection Hc as <- <-. replace (Z.of_N L <? Z.of_N (L + 0))%Z with false by lia.
+    exists (TrNode l ch). rewrite app_nil_r. auto.
+  - replace (Z.of_N L <? Z.of_N (L + R))%Z with true by lia.
+    destruct ch as [|c0 ch']; [contradiction|].
+    inversion IH as [|? ? IH0 _]; subst.
+    destruct c0 as [l0 ch0]. cbn [chainf] in Hc. cbn [tr_label].
+    destruct (N.leb_spec (Nlen l0) R) as [Hle|Hgt]; [|contradiction].
+    rewrite wrap_sub_small by (unfold two63, two64 in *; lia).
+    replace (L + R - Nlen l0) with (L + (R - Nlen l0)) by lia.
+    destruct (N.eqb_spec (R - Nlen l0) 0) as [Hz|Hz].
+    + injection Hc as <- <-.
+      destruct (IH0 (R - Nlen l0) L ch0 [] (buf ++ l0)) as [e [He1 He2]].
+      * rewrite Hz. cbn. reflexivity.
+      * lia.
+      * exists e. rewrite He1. rewrite app_nil_r. auto.
+    + destruct ch0 as [|c1 ch1]; [contradiction|].
+      destruct (chainf c1 (R - Nlen l0)) as [[che' s']|] eqn:Hch; [|contradiction].
+      injection Hc as <- <-.
+      destruct (IH0 (R - Nlen l0) L che' s' (buf ++ l0)) as [e [He1 He2]].
+      * destruct (N.eqb_spec (R - Nlen l0) 0); [lia|]. cbn [tr_ch]. rewrite Hch. reflexivity.
+      * lia.
+      * exists e. rewrite He1. rewrite <- app_assoc. auto.
+Qed.
+
+Lemma chainf_descend : forall c E che s buf,
+  chainf c E = Some (che, s) -> E < two63 ->
+  exists e, d_descend c (Nlen (tr_label c)) E (buf ++ tr_label c) = Some (e, buf ++ s) /\ tr_ch e = che.
+Proof.
+  intros [l ch] E che s buf Hc Hb. cbn [tr_label]. cbn [chainf] in Hc.
+  destruct (N.leb_spec (Nlen l) E) as [Hle|]; [|discriminate].
+  assert (HE : Nlen l + (E - Nlen l) = E) by lia.
+  destruct (N.eqb_spec (E - Nlen l) 0) as [Hz|Hz].
+  - injection Hc as <- <-.
+    destruct (descend_exact (TrNode l ch) (E - Nlen l) (Nlen l) ch [] (buf ++ l)) as [e [H1 H2]].
+    + rewrite Hz. cbn. reflexivity.
+    + lia.
+    + rewrite HE in H1. exists e. rewrite H1, app_nil_r. auto.
+  - destruct ch as [|c0 ch']; [discriminate|].
+    destruct (chainf c0 (E - Nlen l)) as [[che' s']|] eqn:Hch; [|discriminate].
+    injection Hc as <- <-.
+    destruct (descend_exact (TrNode l (c0 :: ch')) (E - Nlen l) (Nlen l) che' s' (buf ++ l)) as [e [H1 H2]].
+    + destruct (N.eqb_spec (E - Nlen l) 0); [lia|]. cbn [tr_ch]. rewrite Hch. reflexivity.
+    + lia.
+    + rewrite HE in H1. exists e. rewrite H1, <- app_assoc. auto.
+Qed.
+
+Lemma two63_lt_64 : forall x, x < two63 -> x < 2 ^ 64.
+Proof. unfold two63. intros. change (2 ^ 64) with 18446744073709551616. lia. Qed.
+
+Lemma key_of_cons : forall v E ps, key_of ((v, E) :: ps) = uvarint_enc v ++ uvarint_enc E ++ key_of ps.
+Proof. intros. unfold key_of. cbn [flat_map fst snd]. unfold pair_enc. rewrite <- app_assoc. reflexivity. Qed.
+
+(* an exact key is decoded by Get to its name *)
+Lemma walk_get : forall ps tn buf fuel name,
+  Forall small_pair ps -> walk (tr_ch tn) ps = Some name -> (length (key_of ps) < fuel)%nat ->
+  d_get_loop fuel tn (key_of ps) buf = GFound (buf ++ name).
+Proof.
+  induction ps as [|[v E] ps IH]; intros tn buf fuel name Hs Hw Hf.
+  - cbn in *. injection Hw as <-. destruct fuel; [lia|]. cbn. rewrite app_nil_r. reflexivity.
+  - destruct fuel as [|f]; [lia|].
+    inversion Hs as [|? ? [Hv HE] Hs']; subst. cbn [fst snd] in *.
+    cbn [walk] in Hw.
+    destruct (nth_error (tr_ch tn) (N.to_nat v)) as [c|] eqn:Hn; [|discriminate].
+    destruct (chainf c E) as [[che s]|] eqn:Hc; [|discriminate].
+    destruct (walk che ps) as [n|] eqn:Hw'; [|discriminate]. injection Hw as <-.
+    rewrite key_of_cons.
+    cbn [d_get_loop]. rewrite uvarint_roundtrip by (apply two63_lt_64; exact Hv).
+    replace (two63 <=? v) with false by lia.
+    assert (Hlt : (N.to_nat v < length (tr_ch tn))%nat) by (apply nth_error_Some; congruence).
+    replace (Nlen (tr_ch tn) <=? v) with false by (unfold Nlen; lia).
+    rewrite Hn. rewrite uvarint_read_enc by (apply two63_lt_64; exact HE).
+    destruct (chainf_descend c E che s buf Hc HE) as [e [Hd He]]. rewrite Hd.
+    rewrite (IH e (buf ++ s) f n Hs').
+    + rewrite app_assoc. reflexivity.
+    + rewrite He. exact Hw'.
+    + rewrite key_of_cons, !app_length in Hf.
+      pose proof (uvarint_enc_len v). pose proof (uvarint_enc_len E). lia.
+Qed.
+
+Lemma valid_key_get : forall t k name, valid_key t k name -> d_get k t = Some name.
+Proof.
+  intros t k name [ps [-> [Hs Hw]]]. unfold d_get, d_get_res.
+  rewrite (walk_get ps t [] _ name Hs Hw); [reflexivity|lia].
+Qed.
+
+(* ---- extension of a trie by later puts ---- *)
+Inductive ext : trie -> trie -> Prop :=
+| ext_node : forall l ch ch1 extra, Forall2 ext ch ch1 -> ext (TrNode l ch) (TrNode l (ch1 ++ extra))
+| ext_split : forall a b ch t2 extra, b <> [] -> ext (TrNode b ch) t2 -> ext (TrNode (a ++ b) ch) (TrNode a (t2 :: extra)).
+
+Definition extl (ch ch' : list trie) : Prop := exists ch1 extra, ch' = ch1 ++ extra /\ Forall2 ext ch ch1.
+
+Section ExtInd.
+  Variable P : trie -> trie -> Prop.
+  Hypothesis Hnode : forall l ch ch1 extra, Forall2 ext ch ch1 -> Forall2 P ch ch1 -> P (TrNode l ch) (TrNode l (ch1 ++ extra)).
+  Hypothesis Hsplit : forall a b ch t2 extra, b <> [] -> ext (TrNode b ch) t2 -> P (TrNode b ch) t2 ->
+                                              P (TrNode (a ++ b) ch) (TrNode a (t2 :: extra)).
+  Fixpoint ext_ind' (t t' : trie) (H : ext t t') {struct H} : P t t' :=
+    match H with
+    | ext_node l ch ch1 extra F =>
+        Hnode l ch ch1 extra F
+          ((fix go (x y : list trie) (F : Forall2 ext x y) {struct F} : Forall2 P x y :=
+              match F with
+              | Forall2_nil _ => Forall2_nil _
+              | Forall2_cons _ _ h tl => Forall2_cons _ _ (ext_ind' _ _ h) (go _ _ tl)
+              end) ch ch1 F)
+    | ext_split a b ch t2 extra nb h => Hsplit a b ch t2 extra nb h (ext_ind' _ _ h)
+    end.
+End ExtInd.
+
+Lemma ext_refl : forall t, ext t t.
+Proof.
+  induction t as [l ch IH] using trie_ind'.
+  rewrite <- (app_nil_r ch) at 2. apply ext_node.
+  induction IH; constructor; auto.
+Qed.
+
+Lemma Forall2_ext_refl : forall ch, Forall2 ext ch ch.
+Proof. induction ch; constructor; auto using ext_refl. Qed.
+
+Lemma extl_refl : forall ch, extl ch ch.
+Proof. intros. exists ch, []. rewrite app_nil_r. auto using Forall2_ext_refl. Qed.
+
+Lemma chainf_ext : forall c c', ext c c' ->
+  forall E che s, chainf c E = Some (che, s) -> exists che', chainf c' E = Some (che', s) /\ extl che che'.
+Proof.
+  intros c c' H. induction H as [l ch ch1 extra F IH | a b ch t2 extra Hb Hext IH] using ext_ind'; intros E che s Hc.
+  - cbn [chainf] in *. destruct (Nlen l <=? E); [|discriminate].
+    destruct (E - Nlen l =? 0).
+    + injection Hc as <- <-. exists (ch1 ++ extra). split; [reflexivity|]. exists ch1, extra. auto.
+    + destruct ch as [|c0 ch0]; [discriminate|].
+      inversion IH as [|? c0' ? ch1' IH0 _]; subst. cbn [app].
+      destruct (chainf c0 (E - Nlen l)) as [[che0 s0]|] eqn:Hc0; [|discriminate].
+      injection Hc as <- <-.
+      destruct (IH0 _ _ _ Hc0) as [che' [Hc' He]]. rewrite Hc'. eauto.
+  - assert (Hlen : Nlen (a ++ b) = Nlen a + Nlen b) by (unfold Nlen; rewrite app_length; lia).
+    assert (Hbl : 0 < Nlen b) by (destruct b; [congruence|unfold Nlen; cbn; lia]).
+    cbn [chainf] in Hc. rewrite Hlen in Hc.
+    destruct (N.leb_spec (Nlen a + Nlen b) E) as [Hle|]; [|discriminate].
+    assert (Hcb : chainf (TrNode b ch) (E - Nlen a) = Some (che, skipn (length a) s) /\ s = a ++ skipn (length a) s).
+    { cbn [chainf]. replace (Nlen b <=? E - Nlen a) with true by lia.
+      replace (E - Nlen a - Nlen b) with (E - (Nlen a + Nlen b)) by lia.
+      destruct (E - (Nlen a + Nlen b) =? 0).
+      - injection Hc as <- <-. rewrite skipn_app, skipn_all, Nat.sub_diag. cbn. auto.
+      - destruct ch as [|c0 ch0]; [discriminate|].
+        destruct (chainf c0 (E - (Nlen a + Nlen b))) as [[che0 s0]|]; [|discriminate].
+        injection Hc as <- <-. rewrite <- app_assoc, skipn_app, skipn_all, Nat.sub_diag. cbn. auto. }
+    destruct Hcb as [Hcb Hs].
+    destruct (IH _ _ _ Hcb) as [che' [Hc' He]].
+    exists che'. split; [|exact He].
+    cbn [chainf]. replace (Nlen a <=? E) with true by lia.
+    replace (E - Nlen a =? 0) with false by lia.
+    rewrite Hc'. rewrite Hs at 2. reflexivity.
+Qed.
+
+Lemma Forall2_nth_l : forall {A B} (R : A -> B -> Prop) l l' i x,
+  Forall2 R l l' -> nth_error l i = Some x -> exists y, nth_error l' i = Some y /\ R x y.
+Proof.
+  intros A B R l l' i x F. revert i. induction F; intros [|i] Hn; cbn in *; try discriminate.
+  - injection Hn as <-. eauto.
+  - eauto.
+Qed.
+
+Lemma walk_ext : forall ps ch ch' name, extl ch ch' -> walk ch ps = Some name -> walk ch' ps = Some name.
+Proof.
+  induction ps as [|[v E] ps IH]; intros ch ch' name He Hw; [exact Hw|].
+  cbn [walk] in *. destruct He as [ch1 [extra [-> F]]].
+  destruct (nth_error ch (N.to_nat v)) as [c|] eqn:Hn; [|discriminate].
+  destruct (Forall2_nth_l _ _ _ _ _ F Hn) as [c' [Hn' Hext]].
+  rewrite nth_error_app1 by (apply nth_error_Some; congruence). rewrite Hn'.
+  destruct (chainf c E) as [[che s]|] eqn:Hc; [|discriminate].
+  destruct (chainf_ext _ _ Hext _ _ _ Hc) as [che' [Hc' He']]. rewrite Hc'.
+  destruct (walk che ps) as [n|] eqn:Hw'; [|discriminate].
+  rewrite (IH _ _ _ He' Hw'). exact Hw.
+Qed.
+
+Lemma valid_key_ext : forall l ch ch' k name, extl ch ch' -> valid_key (TrNode l ch) k name -> valid_key (TrNode l ch') k name.
+Proof. intros l ch ch' k name He [ps [Hk [Hs Hw]]]. exists ps. cbn [tr_ch] in *. eauto using walk_ext. Qed.
+
+(* ---- facts about lcp / list_set / weight ---- *)
+Lemma lcp_firstn : forall a b, firstn (lcp a b) a = firstn (lcp a b) b.
+Proof.
+  induction a as [|x a IH]; intros [|y b]; cbn; try reflexivity.
+  destruct (N.eqb_spec x y) as [->|]; cbn; [rewrite IH|]; reflexivity.
+Qed.
+
+Lemma lcp_split_key : forall key lk, key = firstn (lcp key lk) lk ++ skipn (lcp key lk) key.
+Proof. intros. rewrite <- lcp_firstn. symmetry. apply firstn_skipn. Qed.
+
+Lemma nth_error_list_set : forall {A} (l : list A) i x y, nth_error l i = Some y -> nth_error (list_set i x l) i = Some x.
+Proof. induction l as [|z l IH]; intros [|i] x y H; cbn in *; try discriminate; eauto. Qed.
+
+Lemma Forall2_list_set : forall {A} (R : A -> A -> Prop) (l : list A) i x y,
+  (forall z, R z z) -> nth_error l i = Some y -> R y x -> Forall2 R l (list_set i x l).
+Proof.
+  induction l as [|z l IH]; intros [|i] x y Hr H Hx; cbn in *; try discriminate.
+  - injection H as ->. constructor; [exact Hx|]. clear -Hr. induction l; constructor; auto.
+  - constructor; [apply Hr|]. eapply IH; eauto.
+Qed.
+
+Definition ch_weight (ch : list trie) : N := fold_right (fun c n => tr_weight c + n) 0 ch.
+
+Lemma tr_weight_eq : forall l ch, tr_weight (TrNode l ch) = 1 + Nlen l + ch_weight ch.
+Proof. reflexivity. Qed.
+
+Lemma tr_weight_pos : forall t, 1 <= tr_weight t.
+Proof. intros [l ch]. rewrite tr_weight_eq. lia. Qed.
+
+Lemma ch_weight_len : forall ch, Nlen ch <= ch_weight ch.
+Proof.
+  induction ch as [|c ch IH]; [cbn; lia|]. unfold Nlen in *. cbn [length ch_weight fold_right].
+  fold (ch_weight ch). pose proof (tr_weight_pos c). lia.
+Qed.
+
+Lemma ch_weight_nth : forall ch i c, nth_error ch i = Some c -> tr_weight c <= ch_weight ch.
+Proof.
+  induction ch as [|c0 ch IH]; intros [|i] c H; cbn in H; try discriminate;
+    cbn [ch_weight fold_right]; fold (ch_weight ch).
+  - injection H as ->. lia.
+  - apply IH in H. lia.
+Qed.
+
+Lemma ch_weight_list_set : forall ch i c c', nth_error ch i = Some c ->
+  ch_weight (list_set i c' ch) + tr_weight c = ch_weight ch + tr_weight c'.
+Proof.
+  induction ch as [|c0 ch IH]; intros [|i] c c' H; cbn in H; try discriminate;
+    cbn [list_set ch_weight fold_right]; fold (ch_weight ch).
+  - injection H as ->. lia.
+  - fold (ch_weight (list_set i c' ch)). specialize (IH _ _ c' H). lia.
+Qed.
+
+Lemma ch_weight_app : forall a b, ch_weight (a ++ b) = ch_weight a + ch_weight b.
+Proof. induction a as [|x a IH]; intros; cbn [app ch_weight fold_right]; [reflexivity|]. fold (ch_weight (a ++ b)) (ch_weight a). rewrite IH. lia. Qed.
+
+(* ---- Put returns an exact key, extends the trie, and adds little weight ---- *)
+Lemma d_put_loop_spec : forall fuel key l ch out t',
+  d_put_loop fuel key (TrNode l ch) = Some (out, t') ->
+  tr_weight (TrNode l ch) + Nlen key < two63 ->
+  exists ps ch', t' = TrNode l ch' /\ extl ch ch' /\ out = key_of ps /\ Forall small_pair ps /\
+                 walk ch' ps = Some key /\
+                 tr_weight t' <= tr_weight (TrNode l ch) + Nlen key + (if Nat.eqb (length key) 0 then 0 else 2).
+Proof.
+  induction fuel as [|f IH]; intros key l ch out t' H Hb; [discriminate|].
+  destruct key as [|k0 key]; cbn [d_put_loop] in H.
+  { injection H as <- <-. exists [], ch. cbn. repeat split; auto using extl_refl. lia. }
+  set (K := k0 :: key) in *.
+  assert (HK : (if Nat.eqb (length K) 0 then 0 else 2) = 2) by reflexivity. rewrite HK. clear HK.
+  rewrite tr_weight_eq in Hb. pose proof (ch_weight_len ch) as Hcl.
+  destruct (lead_index k0 ch) as [idx|] eqn:Hl.
+  2:{ (* case 1 *)
+    injection H as <- <-. exists [(Nlen ch, Nlen K)], (ch ++ [TrNode K []]).
+    split; [reflexivity|]. split; [exists ch, [TrNode K []]; auto using Forall2_ext_refl|].
+    split; [cbn; rewrite app_nil_r; reflexivity|].
+    split; [constructor; [split; cbn [fst snd]; lia|constructor]|].
+    split.
+    - cbn [walk]. unfold Nlen at 1. rewrite Nat2N.id, nth_error_app2, Nat.sub_diag by lia. cbn [nth_error chainf].
+      rewrite N.leb_refl, N.sub_diag. cbn. rewrite app_nil_r. reflexivity.
+    - rewrite !tr_weight_eq, ch_weight_app. cbn [ch_weight fold_right]. rewrite tr_weight_eq. cbn [ch_weight fold_right]. lia. }
+  destruct (lead_index_some _ _ _ Hl) as [c [Hn Hfb]]. rewrite Hn in H.
+  destruct c as [lk lch].
+  pose proof (first_byte_lcp k0 key lk lch Hfb) as Hp1. fold K in Hp1.
+  pose proof (lcp_le_l K lk) as HpK. pose proof (lcp_le_r K lk) as Hplk.
+  pose proof (lcp_split_key K lk) as Hsplit.
+  pose proof (ch_weight_nth _ _ _ Hn) as Hwc. rewrite tr_weight_eq in Hwc.
+  assert (Hidx : (idx < length ch)%nat) by (apply nth_error_Some; congruence).
+  set (p := lcp K lk) in *.
+  assert (Hskl : Nlen (skipn p K) = Nlen K - N.of_nat p) by (unfold Nlen; rewrite skipn_length; lia).
+  destruct (Nat.eqb_spec p (length lk)) as [Hpl|Hpl].
+  - rewrite Hpl, firstn_all in Hsplit.
+    destruct (Nat.eqb_spec p (length K)) as [HpK2|HpK2].
+    + (* case 2 *)
+      injection H as <- <-. exists [(N.of_nat idx, Nlen lk)], ch.
+      assert (HKlk : K = lk).
+      { rewrite Hsplit at 1. rewrite <- Hpl, HpK2, skipn_all, app_nil_r. reflexivity. }
+      split; [reflexivity|]. split; [apply extl_refl|].
+      split; [cbn; rewrite app_nil_r; reflexivity|].
+      split; [constructor; [split; cbn [fst snd]; unfold Nlen in *; lia|constructor]|].
+      split.
+      * cbn [walk]. rewrite Nat2N.id, Hn. cbn [chainf]. rewrite N.leb_refl, N.sub_diag. cbn.
+        rewrite app_nil_r, HKlk. reflexivity.
+      * lia.
+    + (* case 4 *)
+      destruct (d_put_loop f (skipn p K) (TrNode lk lch)) as [[out' c']|] eqn:Hrec; [|discriminate].
+      injection H as <- <-.
+      destruct (IH _ _ _ _ _ Hrec) as [ps' [lch' [-> [Hext [-> [Hsm [Hw Hwt]]]]]]].
+      { rewrite tr_weight_eq. lia. }
+      exists ((N.of_nat idx, Nlen lk) :: ps'), (list_set idx (TrNode lk lch') ch).
+      split; [reflexivity|].
+      split.
+      { exists (list_set idx (TrNode lk lch') ch), []. rewrite app_nil_r. split; [reflexivity|].
+        eapply Forall2_list_set; [apply ext_refl|exact Hn|].
+        destruct Hext as [c1 [ex [-> F]]]. apply ext_node. exact F. }
+      split; [reflexivity|].
+      split; [constructor; [split; cbn [fst snd]; unfold Nlen in *; lia|exact Hsm]|].
+      split.
+      * cbn [walk]. rewrite Nat2N.id, (nth_error_list_set _ _ _ _ Hn). cbn [chainf].
+        rewrite N.leb_refl, N.sub_diag. cbn [N.eqb]. rewrite Hw. rewrite Hpl. rewrite <- Hsplit. reflexivity.
+      * pose proof (ch_weight_list_set ch idx _ (TrNode lk lch') Hn) as Hls.
+        rewrite !tr_weight_eq in *.
+        destruct (Nat.eqb (length (skipn p K)) 0); lia.
+  - (* case 3 *)
+    destruct (d_put_loop f (skipn p K) (TrNode (firstn p lk) [TrNode (skipn p lk) lch])) as [[out' n']|] eqn:Hrec; [|discriminate].
+    injection H as <- <-.
+    assert (Hla : Nlen (firstn p lk) = N.of_nat p) by (unfold Nlen; rewrite firstn_length; lia).
+    assert (Hlb : Nlen (skipn p lk) = Nlen lk - N.of_nat p) by (unfold Nlen; rewrite skipn_length; lia).
+    destruct (IH _ _ _ _ _ Hrec) as [ps' [chn' [-> [Hext [-> [Hsm [Hw Hwt]]]]]]].
+    { rewrite !tr_weight_eq. cbn [ch_weight fold_right]. rewrite tr_weight_eq. unfold Nlen in *. lia. }
+    exists ((N.of_nat idx, N.of_nat p) :: ps'), (list_set idx (TrNode (firstn p lk) chn') ch).
+    split; [reflexivity|].
+    split.
+    { exists (list_set idx (TrNode (firstn p lk) chn') ch), []. rewrite app_nil_r. split; [reflexivity|].
+      eapply Forall2_list_set; [apply ext_refl|exact Hn|].
+      destruct Hext as [c1 [ex [-> F]]]. inversion F as [|? t2 ? c1' Ht2 F']; subst. inversion F'; subst. cbn [app].
+      rewrite <- (firstn_skipn p lk) at 1. apply ext_split; [|exact Ht2].
+      intros Hnil. apply (f_equal (@length _)) in Hnil. rewrite skipn_length in Hnil. cbn [length] in Hnil. lia. }
+    split; [reflexivity|].
+    split; [constructor; [split; cbn [fst snd]; unfold Nlen in *; lia|exact Hsm]|].
+    split.
+    + cbn [walk]. rewrite Nat2N.id, (nth_error_list_set _ _ _ _ Hn). cbn [chainf].
+      rewrite Hla, N.leb_refl, N.sub_diag. cbn [N.eqb]. rewrite Hw. rewrite <- Hsplit. reflexivity.
+    + pose proof (ch_weight_list_set ch idx _ (TrNode (firstn p lk) chn') Hn) as Hls.
+      rewrite !tr_weight_eq in *. cbn [ch_weight fold_right] in Hwt. rewrite tr_weight_eq in Hwt.
+      destruct (Nat.eqb (length (skipn p K)) 0); unfold Nlen in *; lia.
+Qed.
+
+(* ---- codec round trip ---- *)
+Definition parse_kids (f : nat) : nat -> bytes -> option (list trie * bytes) :=
+  fix kids (n : nat) (bs : bytes) : option (list trie * bytes) :=
+    match n with
+    | O => Some ([], bs)
+    | S n' => match parse_node f bs with
+              | None => None
+              | Some (c, r) => match kids n' r with
+                               | None => None
+                               | Some (cs, r') => Some (c :: cs, r')
+                               end
+              end
+    end.
+
+Lemma parse_node_S : forall f bs,
+  parse_node (S f) bs =
+  let '(nl, _, r1) := uvarint_read bs in
+  if Nlen r1 <? nl then None else
+  match take_bytes (N.to_nat nl) r1 with
+  | None => None
+  | Some (name, r2) =>
+      match uvarint_dec r2 with
+      | None => None
+      | Some (cl, r3) =>
+          if Nlen r3 <? cl then None else
+          match parse_kids f (N.to_nat cl) r3 with
+          | None => None
+          | Some (cs, r4) => Some (TrNode name cs, r4)
+          end
+      end
+  end.
+Proof. reflexivity. Qed.
+
+Fixpoint tr_height (t : trie) : nat :=
+  match t with TrNode _ ch => S (fold_right (fun c n => Nat.max (tr_height c) n) 0%nat ch) end.
+
+Lemma ser_node_len : forall t, (2 <= length (ser_node t))%nat.
+Proof.
+  intros [l ch]. cbn [ser_node]. rewrite !app_length.
+  pose proof (uvarint_enc_len (Nlen l)). pose proof (uvarint_enc_len (Nlen ch)). lia.
+Qed.
+
+Lemma flat_ser_len : forall ch, (length ch <= length (flat_map ser_node ch))%nat.
+Proof.
+  induction ch as [|c ch IH]; cbn [flat_map length]; [lia|]. rewrite app_length.
+  pose proof (ser_node_len c). lia.
+Qed.
+
+Lemma height_le_ser : forall t, (tr_height t <= length (ser_node t))%nat.
+Proof.
+  induction t as [l ch IH] using trie_ind'. cbn [tr_height ser_node]. rewrite !app_length.
+  pose proof (uvarint_enc_len (Nlen l)). pose proof (uvarint_enc_len (Nlen ch)).
+  assert ((fold_right (fun c n => Nat.max (tr_height c) n) 0 ch <= length (flat_map ser_node ch))%nat).
+  { clear H H0. induction IH as [|c ch Hc _ IH']; cbn [fold_right flat_map length]; [lia|]. rewrite app_length. apply Nat.max_lub; lia. }
+  lia.
+Qed.
+
+Lemma roundtrip_node : forall t, tr_weight t < 2 ^ 64 ->
+  forall fuel rest, (tr_height t <= fuel)%nat -> parse_node fuel (ser_node t ++ rest) = Some (t, rest).
+Proof.
+  induction t as [l ch IH] using trie_ind'. intros Hw fuel rest Hf.
+  destruct fuel as [|f]; [cbn in Hf; lia|].
+  rewrite tr_weight_eq in Hw. pose proof (ch_weight_len ch) as Hcl.
+  rewrite parse_node_S. cbn [ser_node]. rewrite <- !app_assoc.
+  rewrite uvarint_read_enc by lia.
+  replace (Nlen (l ++ uvarint_enc (Nlen ch) ++ flat_map ser_node ch ++ rest) <? Nlen l) with false
+    by (unfold Nlen; rewrite app_length; lia).
+  unfold Nlen at 1. rewrite Nat2N.id, take_bytes_app.
+  rewrite uvarint_roundtrip by lia.
+  replace (Nlen (flat_map ser_node ch ++ rest) <? Nlen ch) with false
+    by (unfold Nlen; rewrite app_length; pose proof (flat_ser_len ch); lia).
+  unfold Nlen at 1. rewrite Nat2N.id.
+  assert (Hk : parse_kids f (length ch) (flat_map ser_node ch ++ rest) = Some (ch, rest)).
+  { cbn [tr_height] in Hf. apply le_S_n in Hf. clear Hcl.
+    assert (Hcw : ch_weight ch < 2 ^ 64) by lia. clear Hw.
+    induction IH as [|c ch Hc _ IH']; [reflexivity|].
+    cbn [fold_right] in Hf. cbn [ch_weight fold_right] in Hcw. fold (ch_weight ch) in Hcw.
+    cbn [length flat_map parse_kids]. rewrite <- app_assoc.
+    rewrite Hc by lia. fold (parse_kids f). rewrite IH' by lia. reflexivity. }
+  rewrite Hk. reflexivity.
+Qed.
+
+Lemma d_codec_roundtrip : forall t, tr_weight t < 2 ^ 64 -> d_deserialize (d_serialize t) = Some t.
+Proof.
+  intros t Hw. unfold d_deserialize, d_serialize.
+  rewrite uvarint_roundtrip by (cbn; lia).
+  rewrite <- (app_nil_r (ser_node t)) at 2.
+  rewrite roundtrip_node; [reflexivity|exact Hw|]. pose proof (height_le_ser t). lia.
+Qed.
+
+(* ---- headline statements ---- *)
+Lemma d_put_spec : forall name t k t',
+  tr_weight t + Nlen name < two63 -> d_put name t = (k, t') ->
+  valid_key t' k name /\ (forall k0 n0, valid_key t k0 n0 -> valid_key t' k0 n0) /\
+  tr_weight t' <= tr_weight t + Nlen name + 2.
+Proof.
+  intros name [l ch] k t' Hb Hp. unfold d_put, d_put_opt in Hp.
+  destruct (d_put_loop (S (length name)) name (TrNode l ch)) as [[k1 t1]|] eqn:E.
+  2:{ exfalso. eapply d_put_loop_some; [|exact E]. lia. }
+  injection Hp as -> ->.
+  destruct (d_put_loop_spec _ _ _ _ _ _ E Hb) as [ps [ch' [-> [Hext [-> [Hsm [Hw Hwt]]]]]]].
+  split; [exists ps; auto|]. split.
+  - intros k0 n0 Hv. eapply valid_key_ext; eauto.
+  - destruct (Nat.eqb (length name) 0); lia.
+Qed.
+
+Theorem dict_put_get : forall name t k t',
+  tr_weight t + Nlen name < two63 -> d_put name t = (k, t') -> d_get k t' = Some name.
+Proof. intros name t k t' Hb Hp. apply valid_key_get. destruct (d_put_spec name t k t' Hb Hp) as [H _]. exact H. Qed.
+
+Definition op_weight (o : d_op) : N := match o with OPut n => Nlen n + 2 | OReload => 0 end.
+Definition ops_weight (ops : list d_op) : N := fold_right (fun o n => op_weight o + n) 0 ops.
+
+Lemma ops_weight_app : forall a b, ops_weight (a ++ b) = ops_weight a + ops_weight b.
+Proof. induction a as [|o a IH]; intros; cbn [app ops_weight fold_right]; [reflexivity|]. fold (ops_weight (a ++ b)) (ops_weight a). rewrite IH. lia. Qed.
+
+Lemma d_reload_id : forall t, tr_weight t < two63 -> d_reload t = t.
+Proof. intros t H. unfold d_reload. rewrite d_codec_roundtrip; [reflexivity|]. apply two63_lt_64. exact H. Qed.
+
+Lemma d_step_inv : forall o t, tr_weight t + op_weight o < two63 ->
+  (forall k n, valid_key t k n -> valid_key (d_step t o) k n) /\ tr_weight (d_step t o) <= tr_weight t + op_weight o.
+Proof.
+  intros [name|] t Hb; cbn [d_step op_weight] in *.
+  - destruct (d_put name t) as [k t'] eqn:Hp. cbn [snd].
+    destruct (d_put_spec name t k t') as [_ [H1 H2]]; [lia|exact Hp|]. split; [exact H1|lia].
+  - rewrite d_reload_id by lia. split; [auto|lia].
+Qed.
+
+Lemma d_steps_inv : forall ops t, tr_weight t + ops_weight ops < two63 ->
+  (forall k n, valid_key t k n -> valid_key (fold_left d_step ops t) k n) /\
+  tr_weight (fold_left d_step ops t) <= tr_weight t + ops_weight ops.
+Proof.
+  induction ops as [|o ops IH]; intros t Hb; cbn [fold_left ops_weight fold_right] in *.
+  - split; [auto|lia].
+  - fold (ops_weight ops) in *. destruct (d_step_inv o t) as [H1 H2]; [lia|].
+    destruct (IH (d_step t o)) as [H3 H4]; [lia|]. split; [auto|lia].
+Qed.
+
+(* every key ever returned keeps decoding to its name in every later state, over any history of
+   puts and save/reload events *)
+Theorem dict_stable : forall t0 ops1 name ops2 k t1,
+  tr_weight t0 + ops_weight (ops1 ++ OPut name :: ops2) < two63 ->
+  d_put name (fold_left d_step ops1 t0) = (k, t1) ->
+  d_get k (fold_left d_step ops2 t1) = Some name.
+Proof.
+  intros t0 ops1 name ops2 k t1 Hb Hp.
+  rewrite ops_weight_app in Hb. cbn [ops_weight fold_right op_weight] in Hb. fold (ops_weight ops2) in Hb.
+  destruct (d_steps_inv ops1 t0) as [_ Hw1]; [lia|].
+  destruct (d_put_spec name (fold_left d_step ops1 t0) k t1) as [Hv [_ Hw2]]; [lia|exact Hp|].
+  destruct (d_steps_inv ops2 t1) as [Hinv _]; [lia|].
+  apply valid_key_get. apply Hinv. exact Hv.
+Qed.
+
+(* putting the same name again (after anything) returns a key that decodes to it, and the first key
+   stays valid as well *)
+Theorem dict_put_same : forall t0 ops1 name ops2 ops3 k1 t1 k2 t2,
+  tr_weight t0 + ops_weight (ops1 ++ OPut name :: ops2 ++ OPut name :: ops3) < two63 ->
+  d_put name (fold_left d_step ops1 t0) = (k1, t1) ->
+  d_put name (fold_left d_step ops2 t1) = (k2, t2) ->
+  d_get k2 (fold_left d_step ops3 t2) = Some name /\ d_get k1 (fold_left d_step ops3 t2) = Some name.
+Proof.
+  intros t0 ops1 name ops2 ops3 k1 t1 k2 t2 Hb Hp1 Hp2. split.
+  - assert (Hst : fold_left d_step (ops1 ++ OPut name :: ops2) t0 = fold_left d_step ops2 t1).
+    { rewrite fold_left_app. cbn [fold_left d_step]. rewrite Hp1. reflexivity. }
+    apply (dict_stable t0 (ops1 ++ OPut name :: ops2) name ops3 k2 t2).
+    + rewrite <- app_assoc. exact Hb.
+    + rewrite Hst. exact Hp2.
+  - assert (Hst : fold_left d_step (ops2 ++ OPut name :: ops3) t1 = fold_left d_step ops3 t2).
+    { rewrite fold_left_app. cbn [fold_left d_step]. rewrite Hp2. reflexivity. }
+    rewrite <- Hst. apply (dict_stable t0 ops1 name _ k1 t1); assumption.
+Qed.
+
+Theorem dict_codec_roundtrip : forall t, tr_weight t < 2 ^ 64 -> d_deserialize (d_serialize t) = Some t.
+Proof. exact d_codec_roundtrip. Qed.
+
+(* ---- well-formedness is preserved by Put ---- *)
+Definition fb (t : trie) : option byte := match tr_label t with x :: _ => Some x | [] => None end.
+
+Lemma first_byte_is_fb : forall b c, first_byte_is b c = match fb c with Some x => N.eqb x b | None => false end.
+Proof. intros b [[|x l] ch]; reflexivity. Qed.
+
+Lemma existsb_fb : forall b ch ch', map fb ch = map fb ch' -> existsb (first_byte_is b) ch = existsb (first_byte_is b) ch'.
+Proof.
+  induction ch as [|c ch IH]; intros [|c' ch'] H; cbn in *; try discriminate; [reflexivity|].
+  injection H as H1 H2. rewrite !first_byte_is_fb, H1. f_equal. auto.
+Qed.
+
+Lemma fbd_fb : forall ch ch', map fb ch = map fb ch' -> first_bytes_distinct ch = first_bytes_distinct ch'.
+Proof.
+  induction ch as [|c ch IH]; intros [|c' ch'] H; cbn [map] in *; try discriminate; [reflexivity|].
+  injection H as H1 H2. cbn [first_bytes_distinct]. unfold fb in H1.
+  destruct (tr_label c) as [|x l], (tr_label c') as [|x' l']; try discriminate; [reflexivity|].
+  injection H1 as ->. rewrite (existsb_fb x' ch ch' H2), (IH ch' H2). reflexivity.
+Qed.
+
+Lemma map_fb_list_set : forall ch i c c', nth_error ch i = Some c -> fb c' = fb c -> map fb (list_set i c' ch) = map fb ch.
+Proof.
+  induction ch as [|c0 ch IH]; intros [|i] c c' H Hf; cbn in *; try discriminate.
+  - injection H as ->. rewrite Hf. reflexivity.
+  - f_equal. eauto.
+Qed.
+
+Lemma forallb_list_set : forall {A} (P : A -> bool) ch i x, forallb P ch = true -> P x = true -> forallb P (list_set i x ch) = true.
+Proof.
+  induction ch as [|c ch IH]; intros [|i] x H Hx; cbn in *; auto;
+    apply andb_true_iff in H; destruct H as [H1 H2]; apply andb_true_iff; auto.
+Qed.
+
+Lemma forallb_nth : forall {A} (P : A -> bool) ch i x, forallb P ch = true -> nth_error ch i = Some x -> P x = true.
+Proof.
+  induction ch as [|c ch IH]; intros [|i] x H Hn; cbn in *; try discriminate;
+    apply andb_true_iff in H; destruct H as [H1 H2]; [injection Hn as <-; auto|eauto].
+Qed.
+
+Lemma lead_index_from_none : forall b ch k acc, lead_index_from b ch k acc = None ->
+  acc = None /\ existsb (first_byte_is b) ch = false.
+Proof.
+  induction ch as [|c ch IH]; intros k acc H; cbn in *; [auto|].
+  apply IH in H. destruct H as [Ha He]. destruct (first_byte_is b c); [discriminate|]. auto.
+Qed.
+
+Lemma fbd_snoc : forall ch b l lch, first_bytes_distinct ch = true -> existsb (first_byte_is b) ch = false ->
+  first_bytes_distinct (ch ++ [TrNode (b :: l) lch]) = true.
+Proof.
+  induction ch as [|c ch IH]; intros b l lch Hd He; [reflexivity|].
+  cbn [app first_bytes_distinct existsb] in *.
+  destruct c as [[|y ly] chy]; cbn [tr_label] in *; [discriminate|].
+  apply andb_true_iff in Hd. destruct Hd as [Hd1 Hd2].
+  apply orb_false_iff in He. destruct He as [He1 He2].
+  rewrite existsb_app. cbn [existsb]. unfold first_byte_is at 2. cbn [tr_label].
+  unfold first_byte_is in He1. cbn [tr_label] in He1.
+  rewrite (N.eqb_sym b y), He1, !orb_false_r. rewrite Hd1. cbn. apply IH; assumption.
+Qed.
+
+Lemma d_put_loop_label : forall f key tn out t', d_put_loop f key tn = Some (out, t') -> tr_label t' = tr_label tn.
+Proof.
+  intros f key tn out t' Hrec. destruct tn as [l0 ch0].
+  destruct f; [discriminate|]. cbn [d_put_loop] in Hrec. destruct key as [|b key]; [injection Hrec as _ <-; reflexivity|].
+  destruct (lead_index b ch0) as [n|]; [|injection Hrec as _ <-; reflexivity].
+  destruct (nth_error ch0 n) as [[lk' lch']|]; [|discriminate].
+  destruct (Nat.eqb (lcp (b :: key) lk') (length lk')).
+  - destruct (Nat.eqb (lcp (b :: key) lk') (length (b :: key))); [injection Hrec as _ <-; reflexivity|].
+    destruct (d_put_loop f _ _) as [[? ?]|]; [injection Hrec as _ <-; reflexivity|discriminate].
+  - destruct (d_put_loop f _ _) as [[? ?]|]; [injection Hrec as _ <-; reflexivity|discriminate].
+Qed.
+
+Lemma d_put_loop_wf : forall fuel key l ch out t',
+  d_put_loop fuel key (TrNode l ch) = Some (out, t') -> tr_wfb (TrNode l ch) = true -> tr_wfb t' = true.
+Proof.
+  induction fuel as [|f IH]; intros key l ch out t' H Hwf; [discriminate|].
+  destruct key as [|k0 key]; cbn [d_put_loop] in H; [injection H as <- <-; exact Hwf|].
+  set (K := k0 :: key) in *.
+  cbn [tr_wfb] in Hwf. apply andb_true_iff in Hwf. destruct Hwf as [Hd Hall].
+  destruct (lead_index k0 ch) as [idx|] eqn:Hl.
+  2:{ injection H as <- <-. apply lead_index_from_none in Hl. destruct Hl as [_ He].
+      cbn [tr_wfb]. apply andb_true_iff. split; [apply fbd_snoc; assumption|].
+      rewrite forallb_app, Hall. reflexivity. }
+  destruct (lead_index_some _ _ _ Hl) as [c [Hn Hfb]]. rewrite Hn in H.
+  destruct c as [lk lch].
+  pose proof (first_byte_lcp k0 key lk lch Hfb) as Hp1. fold K in Hp1.
+  pose proof (lcp_le_r K lk) as Hplk.
+  pose proof (forallb_nth _ _ _ _ Hall Hn) as Hwc.
+  set (p := lcp K lk) in *.
+  destruct (Nat.eqb_spec p (length lk)) as [Hpl|Hpl].
+  - destruct (Nat.eqb p (length K)); [injection H as <- <-; cbn [tr_wfb]; rewrite Hd, Hall; reflexivity|].
+    destruct (d_put_loop f (skipn p K) (TrNode lk lch)) as [[out' c']|] eqn:Hrec; [|discriminate].
+    injection H as <- <-.
+    pose proof (IH _ _ _ _ _ Hrec Hwc) as Hwc'.
+    assert (Hlab : tr_label c' = lk) by (apply (d_put_loop_label _ _ _ _ _ Hrec)).
+    cbn [tr_wfb]. apply andb_true_iff. split.
+    + rewrite (fbd_fb _ ch); [exact Hd|]. eapply map_fb_list_set; [exact Hn|]. unfold fb. rewrite Hlab. reflexivity.
+    + apply forallb_list_set; assumption.
+  - destruct (d_put_loop f (skipn p K) (TrNode (firstn p lk) [TrNode (skipn p lk) lch])) as [[out' n']|] eqn:Hrec; [|discriminate].
+    injection H as <- <-.
+    assert (Hb : exists y b', skipn p lk = y :: b').
+    { destruct (skipn p lk) eqn:Es; [|eauto]. apply (f_equal (@length _)) in Es. rewrite skipn_length in Es. cbn [length] in Es. lia. }
+    destruct Hb as [y [b' Hb]].
+    assert (Hwn : tr_wfb (TrNode (firstn p lk) [TrNode (skipn p lk) lch]) = true).
+    { cbn [tr_wfb first_bytes_distinct forallb tr_label]. rewrite Hb. cbn [tr_wfb] in Hwc. cbn. rewrite Hwc. reflexivity. }
+    pose proof (IH _ _ _ _ _ Hrec Hwn) as Hwn'.
+    assert (Hlab : fb n' = fb (TrNode lk lch)).
+    { assert (Hl' : tr_label n' = firstn p lk) by (apply (d_put_loop_label _ _ _ _ _ Hrec)).
+      unfold fb. rewrite Hl'. cbn [tr_label]. clear -Hp1 Hplk. clearbody p.
+      destruct lk as [|x lk']; [cbn [length] in Hplk; lia|].
+      destruct p; [lia|]. reflexivity. }
+    cbn [tr_wfb]. apply andb_true_iff. split.
+    + rewrite (fbd_fb _ ch); [exact Hd|]. eapply map_fb_list_set; [exact Hn|exact Hlab].
+    + apply forallb_list_set; assumption.
+Qed.
+
+Lemma d_put_wf : forall name t, tr_wfb t = true -> tr_wfb (snd (d_put name t)) = true.
+Proof.
+  intros name [l ch] Hwf. unfold d_put, d_put_opt.
+  destruct (d_put_loop (S (length name)) name (TrNode l ch)) as [[k t']|] eqn:E; [|exact Hwf].
+  cbn [snd]. eapply d_put_loop_wf; eauto.
+Qed.
